@@ -174,6 +174,16 @@ CHECKS = {
         "Faults JASM accepts while still reporting 'found' are counted as accepted.",
         ref="DESIGN.md 4/C17",
     ),
+    "C14": dict(
+        cat="exploration",
+        technique="stateful property-based testing (Hypothesis-generated operation histories, shrunk as one value) against fresh-interpreter baselines, plus exhaustive enumeration of all ordered pairs of the operation pool",
+        text="Histories of 2-40 (thorough: 120) complete compile-and-match operations drawn from a ~100-operation pool that covers flags, ranges, sections, style, captures, "
+        "inline/extra-file macros, inputs, result modes and failing operations are run in one process (forked from a parent that never ran JASM); every step's outcome must equal "
+        "that operation's outcome when performed first in a fresh interpreter. All ordered pairs of the pool are checked exhaustively as well.",
+        note="Trusted: baselines from real fresh interpreters (one subprocess per operation); exception outcomes compared by type. The state is synchronous process-global "
+        "state, so owning the sequence is enough (no timing involved).",
+        ref="DESIGN.md 4/C14",
+    ),
 }
 
 NOT_APPLICABLE = []
